@@ -139,6 +139,22 @@ def run(prog, tier, res):
             if {e for e in i["errs"] if is_missing_map(e)} & missing_first and not (i["statics"] or i["rets"]):
                 ok = False
                 res.violate(R2, fn, "gap:%s" % (i["cell"],), "run numbers %s..=%s fall into a gap: only a Missing* error is possible there" % i["cell"], b.where())
+        # a map, once superseded, does not come back: over increasing run numbers (the simulation cell aside) the
+        # selected outcome never returns to one that an intermediate range had replaced (`10418 => new` instead of
+        # `10418.. => new` sends every later run back to the old map)
+        seq_ = [(i["cell"], (frozenset(i["statics"]), frozenset(i["rets"]))) for i in info
+                if i["cell"] != (dispatch.U32_MAX, dispatch.U32_MAX) and (i["statics"] or i["rets"])]
+        seen_, last_ = [], None
+        for cell_, sel_ in seq_:
+            if sel_ == last_:
+                continue
+            if sel_ in seen_:
+                ok = False
+                res.violate(R2, fn, "map-returns:%d" % cell_[0], "from run %d on the lookup goes back to %s, which an earlier run range had already replaced: a later "
+                            "calibration / cabling map only applies to an isolated range of runs" % (cell_[0], sorted(x.split("::")[-1] for x in sel_[0]) or sorted(sel_[1])), b.where())
+                break
+            seen_.append(sel_)
+            last_ = sel_
         selected = set(s for i in info for s in i["statics"])
         dead = set(statics) - selected
         if dead:
